@@ -694,6 +694,9 @@ def _canon_hash(t):
 _INT_PARAM_OPS = {z3.Z3_OP_EXTRACT, z3.Z3_OP_ZERO_EXT, z3.Z3_OP_SIGN_EXT, z3.Z3_OP_ROTATE_LEFT, z3.Z3_OP_ROTATE_RIGHT, z3.Z3_OP_REPEAT}
 
 
+_MAGIC_RUN = [0]
+
+
 class Engine:
     """One path of one exploration."""
 
@@ -711,6 +714,8 @@ class Engine:
         self.model = None
         self.handles = {}
         self.magic = {}  # magic numeral text (lower case) -> SymInt: numerals of a source text that stand for a term (C09/C10)
+        _MAGIC_RUN[0] += 1
+        self.magic_run = _MAGIC_RUN[0]  # numerals are unique per execution, so text-keyed caches in the code under test never hit across paths
         self.handle_seq = 0
         self.fresh_seq = 0
         self.decided = {}  # term id -> choice already implied by the path condition
@@ -865,6 +870,12 @@ class Engine:
         key = f"⟦{self.handle_seq}:{spec}⟧"
         self.handles[key] = s
         return key
+
+    def new_magic(self, value) -> str:
+        """A hexadecimal literal that stands for ``value`` in source text handed to the code under test."""
+        lit = "0x7E57%07X%03X" % (self.magic_run & 0xFFFFFFF, len(self.magic) + 1)
+        self.magic[lit.lower()] = value
+        return lit
 
     def fresh(self, prefix: str, bits: int) -> SymInt:
         self.fresh_seq += 1
